@@ -21,10 +21,12 @@ sys.setrecursionlimit(20000)
 def main():
     ap = argparse.ArgumentParser()
     ap.add_argument("prop", choices=["C06", "C07", "C12", "C15", "C16", "C01",
-                                     "C13", "C14", "C07S", "C02S", "C01S", "C08S", "C10S", "C17", "C18"])
+                                     "C13", "C14", "C07S", "C02S", "C01S", "C08S", "C10S", "C17", "C18", "C04S", "C05S"])
     ap.add_argument("--tier", choices=["quick", "thorough"], default="quick")
     ap.add_argument("--out", default=None)
     ap.add_argument("--layouts", default=None, help="comma separated subset of layouts (C16/C01/C14)")
+    ap.add_argument("--features", default=None, help="C04S/C05S: commitment hash variant(s), comma separated, of keccak_160_lsb (default) "
+                    "keccak_248_lsb blake2s_160_lsb blake2s_248_lsb; thorough runs all four")
     ap.add_argument("--only", default=None, help="comma separated entry points / obligation groups (C18, C17; debugging aid)")
     args = ap.parse_args()
     t0 = time.time()
@@ -61,6 +63,9 @@ def main():
     elif args.prop == "C07S":
         import c07s
         res = c07s.run(args.tier)
+    elif args.prop in ("C04S", "C05S"):
+        import c04s
+        res = c04s.run(args.prop, args.tier, args.features.split(",") if args.features else None)
     elif args.prop == "C10S":
         import c10s
         res = c10s.run(args.tier)
